@@ -190,6 +190,15 @@ func (k *Walker) readBackAll(maxPos int) {
 		if pos < 0 {
 			continue
 		}
+		// make the staging area differ from HEAD first (a reset must not rely on it being clean)
+		if k.chance(60) {
+			k.W.Write(k.freshPath(), k.content())
+			k.Do("add")
+			if k.chance(40) {
+				k.Do("rm")
+			}
+			// positions shift only with journal entries; add/rm write none
+		}
 		rs := k.goit("reset", "--mixed", fmt.Sprintf("HEAD@{%d}", pos))
 		if rs.Exit != 0 {
 			w.C.Oracle("C05.reset-readback")
